@@ -1,7 +1,7 @@
 """C08 — see checks/c08.json; shared machinery in checks/da_common.py."""
 from checks import da_common
 
-MODULES = ["SunriseVerif.Props.C08", "SunriseVerif.Props.C08Payout"]
+MODULES = ["SunriseVerif.Props.C08", "SunriseVerif.Props.C08Payout", "SunriseVerif.Props.C08Block"]
 
 
 def run(ctx):
